@@ -149,6 +149,8 @@ def decoder_suffix_format(eng: Engine):
                 fm = st[1][1]
                 if fm[1][0] == "elem" and fm[1][1] == idxp and isinstance(fm[2], str):
                     found.add((st[1][0][1], fm[2]))
+                elif fm[1][0] == "idx" and fm[1][1] == idxp and fm[1][2][0] == "elem" and isinstance(fm[2], str):
+                    found.add((st[1][0][1], fm[2]))  # some element of the stack by position: which ones, and in what order, is the naming rule's business
     if not found:
         # stateful form: the stored name is key + <instance field>, the field being extended per group iteration by the group routine
         ff = suffix_field_form(eng)
@@ -1016,7 +1018,7 @@ def read_returns(eng: Engine, ctx: Ctx, rid: str, model: ReaderModel | None = No
         tst = info.get("test")
         ctx.check(tst is not None and is_const(tst) and bool(tst[1]) and not [k for k, _ in info.get("ends", []) if k == "break"], rid, f.qualname, "loop exits",
                   expected="no exit other than the returns", found=show(tst) if tst else "?", **loc)
-        ctx.instance("iteration ends examined", len(info.get("ends", [])) + len(inloop), 5)
+        ctx.instance("iteration ends examined", len(info.get("ends", [])) + len(inloop), 4)
         return n
     ctx.check(len(post) == 1, rid, f.qualname, "post-loop return", expected="one return after the loop", found=f"{len(post)}", **loc)
     rv = post[0].term
@@ -1052,7 +1054,7 @@ def read_returns(eng: Engine, ctx: Ctx, rid: str, model: ReaderModel | None = No
                     ctx.bad(rid, f.qualname, f"iteration end ({kind}) after a frame was assembled" + (f" under {guard_text(g)[:60]}" if g else ""), expected="the loop is left (break or return) with the assembled pair",
                             found="the loop continues and the frame is discarded", **loc)
         ctx.check(nbrk >= 1, rid, f.qualname, "a frame can be returned", expected="a break after the frame assembler's call", found=f"{nbrk} break(s)", **loc)
-        ctx.instance("iteration ends examined", len(ends), 5)
+        ctx.instance("iteration ends examined", len(ends), 4)  # floor 2: an if / elif chain in one try has two ends (the chain, the library-error handler)
         return n
     cond_vars = [v for v in info["assigned"] if test is not None and mentions(test, lambda s, v=v: s == ("loop", lid, v))]
     if len(cond_vars) != 1 or test != ("loop", lid, cond_vars[0]):
@@ -1082,7 +1084,7 @@ def read_returns(eng: Engine, ctx: Ctx, rid: str, model: ReaderModel | None = No
                 good = all((is_const(lf) and lf[1] is None) or (lf[0] == "call" and is_self_call(lf, "parse") and lf[3][:1] == (call,)) for _, lf in leaves(b))
             ctx.check(good, rid, f.qualname, f"iteration end ({kind}) that can leave the loop" + (f" under {guard_text(g)[:60]}" if g else ""), expected="returned variables = (raw, parsed) of the frame assembler",
                       found=f"{names[0]} = {show(a)[:50]}, {names[1]} = {show(b)[:50]}", **loc)
-    ctx.instance("iteration ends examined", len(ends), 5)
+    ctx.instance("iteration ends examined", len(ends), 4)  # floor 2: an if / elif chain in one try has two ends (the chain, the library-error handler)
     return n
 
 
@@ -1137,7 +1139,7 @@ def _read_returns_single(eng, ctx, rid, m, f, ret, R, call, pair) -> int:
             ctx.check(v in (pair, call), rid, f.qualname, f"iteration end ({kind}) after a frame was assembled", expected="the loop is left with the assembled pair", found=f"{R} = {show(v)[:60]}", **loc)
     ctx.check(neof >= 1, rid, f.qualname, "end of data ends the iteration cleanly", expected=f"`except EOFError: {R} = (None, None)` (or a return of it) inside the loop", found=f"{neof} such end(s)", **loc)
     ctx.check(nframe >= 1, rid, f.qualname, "a frame can be returned", expected=f"some iteration end leaves the assembler's (raw, parsed) in {R}", found=f"{nframe} such end(s): every assembled frame is discarded" if not nframe else f"{nframe}", **loc)
-    ctx.instance("iteration ends examined", len(ends), 5)
+    ctx.instance("iteration ends examined", len(ends), 4)  # floor 2: an if / elif chain in one try has two ends (the chain, the library-error handler)
     return n
 
 
@@ -1724,17 +1726,32 @@ def receiver_reports_close(eng: Engine, ctx: Ctx, rid: str):
             return (c[1] == "==" and pol) or (c[1] == "!=" and not pol)
         return False
 
-    rets = [e for e in sv.effects if e.kind == "return" and e.handler is None and any(empty_lit(c, p) for c, p in e.guards)]
+    # (a return reached on several paths - a status variable returned at one exit - counts when one of its paths is the empty result)
+    rets = [e for e in sv.effects if e.kind == "return" and e.handler is None and any(any(empty_lit(c, p) for c, p in conj) for conj in (e.dnf or (e.guards,)))]
     ok = len(rets) >= 1 and all(e.term == ("const", False) for e in rets)
     # stores on the path to the return (a store in the other branch of the emptiness test is not before it)
     from ..symeval import neg_lit
 
-    on_path = lambda e, r: not any((c, not p) in r.guards or neg_lit((c, p)) in r.guards for c, p in e.guards)  # noqa: E731
+    def on_path(e, r):
+        # consistent with a path of the return on which the result was empty
+        for conj in (r.dnf or (r.guards,)):
+            if any(empty_lit(c, p) for c, p in conj) and not any((c, not p) in conj or neg_lit((c, p)) in conj for c, p in e.guards):
+                return True
+        return False
+
     stores_before = [e for e in sv.effects if rets and e.kind in ("store", "aug", "setitem") and any(e.seq < r.seq and on_path(e, r) for r in rets)]
     ctx.check(ok and not stores_before, rid, rv.qualname, "closed socket detected on the raw recv() result", expected="`if len(data) == 0: return False` on the value recv() returned, before any store",
               found=(f"{len(rets)} such return(s)" + (f", {len(stores_before)} store(s) before it" if stores_before else "")) if rets else
               "no `return False` guarded by the emptiness of recv()'s own result: " + "; ".join(guard_text(e.guards)[:80] for e in sv.effects if e.kind == "return" and e.term == ("const", False) and e.handler is None),
               **eng.loc(rv, (rets or recvs)[0].node))
+    # ... and when recv() raised (timeout, reset connection): a receiver that reports success then makes the refill loop call it again for ever
+    for e0 in sv.effects:
+        if e0.kind != "return":
+            continue
+        for conj in (e0.dnf if len(e0.dnf or ()) > 1 else (e0.guards,)):
+            via = e0.handler is not None or any((c[0] in ("exc-path", "caught")) and p for c, p in conj)
+            if via:
+                ctx.check(e0.term == ("const", False), rid, rv.qualname, "failed recv() reported as failure", expected="return False on the exception path", found=show(e0.term)[:60], **eng.loc(rv, e0.node))
 
 
 # ============================================================================ C13-D1 restricted to the decoder (shared with C03, C09, C16)
